@@ -275,6 +275,8 @@ def run_task(task):
         res["digest"] = dg.add("inadmissible").hex()
         return res
     except Exception as ex:                       # C20's business; counted
+        if not X.solver_fault(ex):
+            raise
         bump("construct_exceptions")
         bump("cexc:%s:%s" % (name, type(ex).__name__))
         res["digest"] = dg.add("cexc", type(ex).__name__).hex()
@@ -293,6 +295,8 @@ def run_task(task):
                 if name == "SDRZ":
                     cases.append(sdrz_zone(A, t, cnt))
         except Exception as ex:                   # a raising call is C20's business (e.g. Newton divergence in black-box Noh)
+            if not X.solver_fault(ex):
+                raise
             bump("call_exceptions")
             bump("exc:%s:%s" % (name, type(ex).__name__))
             dg.add("exc", type(ex).__name__, float(t))
